@@ -5,6 +5,7 @@ from . import _bounded
 PROPERTIES = {
     "C12": dict(
         modules=["contracts.c12_get_data", "contracts.c02_documents"],
+        bounded=[_bounded.lazy("contracts.e2e_variables", "bounded_method_locals")],
         explanation="get_data of the four bundled base clients against the decision table of the statement; loop-free apart "
                     "from one comprehension (handled by map extensionality), so the symbolic execution over full-domain "
                     "status/body inputs is a complete proof",
